@@ -363,6 +363,31 @@ def formats(P, R, xq, b):
     R.floor('C06.FMT.1', 9)
 
 
+SERVER_FIELDS = ('hostname', 'cli_username', 'auth_username', 'nickname', 'realname')
+
+
+def field_capacity(P, R):
+    """BND.2: a server-supplied field keeps every character up to its documented limit: the copy into a
+    field of extent LEN+1 keeps exactly LEN characters (strncpy with n == LEN, or strlcpy with n == LEN+1)."""
+    n = 0
+    for f in bnd.reader_scope(P):
+        for s in f.calls():
+            c = s.ev.get('callee')
+            if c not in ('strncpy', 'strlcpy', 'memcpy', 'snprintf') or not s.ev['args']:
+                continue
+            d = s.ev['args'][0]
+            fld = [x for x in (d,) if isinstance(x, dict) and x.get('k') == 'mem' and x.get('rec') == core.REQ_REC and x['field'] in SERVER_FIELDS]
+            if not fld:
+                continue
+            ext = d.get('arr')
+            k = const_of(s.ev['args'][2] if c in ('strncpy', 'strlcpy', 'memcpy') else s.ev['args'][1])
+            kept = None if k is None else (k if c in ('strncpy', 'memcpy') else k - 1)
+            n += 1
+            R.ob('C06.BND.2', ext is not None and kept == ext - 1, s, '%s keeps %s of the %s characters the field %s can hold (limit-length values must arrive whole)'
+                 % (c, kept, (ext - 1) if ext else '?', d['field']), key='capacity:%s' % d['field'])
+    R.floor('C06.BND.2', 5, 'copies into server-supplied fields')
+
+
 def shape_gate(P, R, b):
     # the function that stores the client's password
     stores = []
@@ -427,6 +452,7 @@ def run(P, R, tier):
     wiring(P, R, xq, b)
     formats(P, R, xq, b)
     bnd.check_scope(P, R, 'C06.BND.1', bnd.reader_scope(P))
+    field_capacity(P, R)
     shape_gate(P, R, b)
     query_callers(P, R, xq, b)
     return EXPLANATION, ASSUMPTIONS
